@@ -17,6 +17,7 @@ package main
 //                   that stops reading must not park goroutines serving others forever)
 
 import (
+	"sort"
 	"fmt"
 	"go/token"
 	"go/types"
@@ -109,7 +110,9 @@ func checkC17(p *Prog, r *Report) {
 	c17NilStore(p, r)
 	c17OffenderOnly(p, r)
 	c17BlockingSend(p, r)
+	c17CrossWrites(p, r)
 	readerPosition(p, r, "C17.reader-position")
+	boundedRecursion(p, r, "C17.bounded-recursion")
 	rr := requestRoles(p)
 	c05Progress17(p, r, rr)
 }
@@ -625,4 +628,118 @@ func readerPosition(p *Prog, r *Report, rule string) {
 		})
 	}
 	r.check(len(bad) == 0 && n > 0, rule, "Seek call sites", "", fmt.Sprintf("%d position queries", n), strings.Join(dedupe(bad), " || "))
+}
+
+// c17CrossWrites: writes to a client's connection made by goroutines that serve other
+// connections as well (a backend connection's reader delivers the responses of every client
+// multiplexed on it; the cluster's control loop fans events out).  Conn.Write blocks while the
+// client's write queue is full and only gives up when that connection is closed, so such a
+// goroutine is released only if a client that stopped reading is eventually disconnected:
+// the connection's writer must bound its socket writes with a deadline.
+func c17CrossWrites(p *Prog, r *Report) {
+	const rule = "C17.blocking-send"
+	cl := p.proxyClientType()
+	connF := p.FieldOpt("proxy", cl.Obj().Name(), "conn")
+	if connF == nil {
+		fatalf("anchor: the client type has no conn field")
+	}
+	// does the connection's writer bound its writes?
+	bounded := false
+	for _, fn := range p.ScopedFuncs("proxycore") {
+		if recvNamed(fn) == nil || recvNamed(fn).Obj().Name() != "Conn" {
+			continue
+		}
+		eachCall(fn, func(c ssa.CallInstruction) {
+			cm := c.Common()
+			if (cm.IsInvoke() && (cm.Method.Name() == "SetWriteDeadline" || cm.Method.Name() == "SetDeadline")) ||
+				(cm.StaticCallee() != nil && (cm.StaticCallee().Name() == "SetWriteDeadline" || cm.StaticCallee().Name() == "SetDeadline")) {
+				bounded = true
+			}
+		})
+	}
+	// goroutines that serve more than the client being written to
+	var roots []*ssa.Function
+	for _, n := range []string{"(*ClientConn).Receive", "(*ClientConn).Closing", "(*Cluster).stayConnected"} {
+		if f := p.FuncOpt("proxycore", n); f != nil {
+			roots = append(roots, f)
+		}
+	}
+	// reachability over static calls and over dispatch on the repository's own callback
+	// interfaces (Request, ClusterListener): VTA's edges through library interfaces would
+	// connect everything with everything here
+	reach := map[*ssa.Function][]*ssa.Function{}
+	var work []*ssa.Function
+	for _, f := range roots {
+		reach[f] = nil
+		work = append(work, f)
+	}
+	scope := c17Scope(p)
+	for len(work) > 0 {
+		fn := work[len(work)-1]
+		work = work[:len(work)-1]
+		node := p.CG.Nodes[fn]
+		var next []*ssa.Function
+		if node != nil {
+			for _, e := range node.Out {
+				if e.Site == nil || e.Callee.Func == nil {
+					continue
+				}
+				cm := e.Site.Common()
+				switch {
+				case cm.StaticCallee() != nil:
+					next = append(next, e.Callee.Func)
+				case cm.IsInvoke() && (recvNamedIs(cm.Method, "proxycore", "Request") || recvNamedIs(cm.Method, "proxycore", "ClusterListener")):
+					next = append(next, e.Callee.Func)
+				}
+			}
+		}
+		next = append(next, fn.AnonFuncs...)
+		for _, c := range next {
+			if c == nil || c.Blocks == nil || !scope(c) {
+				continue
+			}
+			if _, ok := reach[c]; ok {
+				continue
+			}
+			reach[c] = append(append([]*ssa.Function(nil), reach[fn]...), fn)
+			work = append(work, c)
+		}
+	}
+	n := 0
+	var fns []*ssa.Function
+	for fn := range reach {
+		fns = append(fns, fn)
+	}
+	sort.Slice(fns, func(i, j int) bool { return fns[i].String() < fns[j].String() })
+	seen := map[string]bool{}
+	for _, fn := range fns {
+		eachCall(fn, func(c ssa.CallInstruction) {
+			if !isConnWrite(c) {
+				return
+			}
+			isClientConn := false
+			for _, o := range origins(c.Common().Args[0]) {
+				if f, _ := loadedField(o); f == connF {
+					isClientConn = true
+				}
+			}
+			if !isClientConn {
+				return
+			}
+			key := "cross-write:" + strings.TrimPrefix(strings.Replace(rootFn(fn).String(), modPath+"/", "", -1), "github.com/datastax/cql-proxy/")
+			if seen[key] {
+				return
+			}
+			seen[key] = true
+			n++
+			path := reach[fn]
+			via := ""
+			if len(path) > 0 {
+				via = " (reached from " + path[0].Name() + ")"
+			}
+			r.check(bounded, rule, key, p.Pos(c.Pos()), "the connection's writer bounds its socket writes with a deadline",
+				"a goroutine that serves other connections too"+via+" writes to a client's connection here; Conn.Write blocks while that client's write queue is full and is released only when the connection closes, and nothing closes the connection of a client that stays connected but stops reading (no write deadline): every request multiplexed on that backend connection, or every later cluster event, waits on that one client")
+		})
+	}
+	r.count("cross_connection_write_sites", n)
 }
